@@ -951,8 +951,9 @@ func genTaggedStruct(w genfp.Writer, workingPackage genfp.WorkingPackage, st fp.
 
 	klist := keyTags.Iterator().ToSeq()
 	seq.Sort(klist, ord.Given[string]()).Foreach(func(name string) {
-		fmt.Fprintf(w, `type %s[T any] fp.Tuple2[T,string]
-			`, namedName(w, workingPackage, workingPackage, name))
+		fppkg := w.GetImportedName(genfp.NewImportPackage("github.com/csgura/fp", "fp"))
+		fmt.Fprintf(w, `type %s[T any] %s.Tuple2[T,string]
+			`, namedName(w, workingPackage, workingPackage, name), fppkg)
 
 		fmt.Fprintf(w, `func (r %s[T]) Name() string {
 				return "%s"
